@@ -40,6 +40,16 @@ pub unsafe fn fork() -> Result<Option<u32>> {
     }
 }
 
+/// Prepare a `chdir()` to be performed after `fork()`: the C string is built
+/// now, the returned closure only makes the system call.
+pub fn prep_chdir(dir: &OsStr) -> Result<impl Fn() -> Result<()>> {
+    let dir = os_to_cstring(dir)?;
+    Ok(move || {
+        check_err(unsafe { libc::chdir(dir.as_ptr()) })?;
+        Ok(())
+    })
+}
+
 pub fn setuid(uid: u32) -> Result<()> {
     check_err(unsafe { libc::setuid(uid as libc::uid_t) })?;
     Ok(())
